@@ -424,3 +424,13 @@ func Wrap(r *core.Report, cells []CellFn) []CellFn {
 	}
 	return out
 }
+
+// NewHShared creates a second harness context over other modules that shares the expression
+// context, solver and input variables of h (for differential runs on the same symbolic inputs).
+func NewHShared(h *H, cell string, mods ...*llread.Module) *H {
+	ex := llse.NewExec(h.C, h.P, mods...)
+	ex.ModelVars = h.Vars
+	n := &H{C: h.C, P: h.P, Ex: ex, R: h.R, Cell: cell, Vars: h.Vars}
+	n.St = ex.NewState()
+	return n
+}
